@@ -102,7 +102,109 @@ func c16Huge(c *sim.Ctx) *sim.Violation {
 	return nil
 }
 
+// c16Nested: bodies whose own first bytes can be read as a complete, truthful
+// fixed header for the rest of the body (a frame that seems to contain a frame
+// of the same type): a packet identifier of the form <first byte><length of the
+// rest>, or a PUBLISH topic whose length prefix and first character do the
+// same. Which first byte counts is the one on the wire.
+func c16Nested(c *sim.Ctx) *sim.Violation {
+	t := c.T
+	check := func(first byte, frame []byte, mustDecode bool, what string) *sim.Violation {
+		got := ReadOne(link.NewReader(c, frame, link.Mode{}))
+		sig := func(w string) string { return fmt.Sprintf("C16/0x%02X/nested-look-alike/%s", first, w) }
+		if got.Kind == "panic" {
+			return sim.V(sig("panic:"+got.Pan.Site), "%s: frame %s -> %s", what, hexs(frame), got)
+		}
+		if got.Kind != "packet" {
+			if mustDecode {
+				return sim.V(sig("not-decoded"), "%s: frame %s -> %s", what, hexs(frame), got)
+			}
+			c.Count("nested-look-alike.rejected")
+			return nil
+		}
+		c.Count("probe.body-that-looks-like-a-whole-frame-of-the-same-type")
+		if got.Type != first>>4 {
+			return sim.V(sig("wrong-type"), "%s: upper nibble selects %s, got %s; frame %s", what, typeName(first>>4), typeName(got.Type), hexs(frame))
+		}
+		if p, ok := got.P.(*mq.Publish); ok {
+			if p.Duplicate() != (first&8 != 0) || p.QoS() != (first>>1)&3 || p.Retain() != (first&1 != 0) {
+				return sim.V(sig("flag-lost"), "%s: first byte 0x%02X but DUP=%v QoS=%d RETAIN=%v; frame %s", what, first, p.Duplicate(), p.QoS(), p.Retain(), hexs(frame))
+			}
+		}
+		b2, werr, pi := encodeReal(got.P)
+		if pi != nil || werr != nil || len(b2) == 0 {
+			return sim.V(sig("re-encode-failed"), "%s: err=%v panic=%v; frame %s", what, werr, pi, hexs(frame))
+		}
+		if b2[0] != first {
+			return sim.V(sig(fmt.Sprintf("first-byte-rewritten-as-0x%02X", b2[0])), "%s: writing the decoded packet again starts with 0x%02X; frame %s", what, b2[0], hexs(frame))
+		}
+		return nil
+	}
+	// (1) packet-identifier-led types
+	for _, typ := range []byte{ref.PubAck, ref.PubRec, ref.PubRel, ref.PubComp, ref.Subscribe, ref.SubAck, ref.Unsubscribe, ref.UnsubAck} {
+		cfg := gen.Cfg{Spec: true, NoHuge: true, Types: []byte{typ}}
+		var a *ref.AP
+		var body []byte
+		for try := 0; try < 6; try++ {
+			a = gen.Packet(t, cfg)
+			a.PacketID = 1
+			f, _ := ref.Encode(a)
+			_, body, _, _ = ref.SplitFrame(f)
+			if len(body) >= 3 && len(body)-2 < 128 {
+				break
+			}
+			body = nil
+		}
+		if body == nil {
+			continue
+		}
+		inner := typ<<4 | byte(t.Int(16))
+		a.PacketID = uint16(inner)<<8 | uint16(len(body)-2)
+		a.Flags = ref.ReservedFlags(typ)
+		if t.Bool(1, 2) {
+			a.Flags = byte(t.Int(16))
+		}
+		frame, _ := ref.Encode(a)
+		first := frame[0]
+		if v := check(first, frame, true, fmt.Sprintf("%s whose packet identifier 0x%04X reads as a fixed header for the rest of its body", typeName(typ), a.PacketID)); v != nil {
+			return v
+		}
+	}
+	// (2) PUBLISH: topic length 0x3xxx whose low byte and first character form the
+	// remaining length of "the rest"
+	for fl := byte(0); fl < 16; fl++ {
+		first := 0x30 | fl
+		qos := (fl >> 1) & 3
+		extra, P := 0, 0
+		if qos == 1 || qos == 2 {
+			extra, P = 2, 126
+		}
+		hi := []int{0x30, 0x31, 0x38, 0x39}[t.Int(4)]
+		L := hi<<8 | 0x80 | t.Int(128)
+		cch := ((L &^ 0x7f) + extra + P) / 128
+		if cch > 127 {
+			continue
+		}
+		topic := bytes.Repeat([]byte{'a'}, L)
+		copy(topic, []byte{byte(cch), 0, 1, 't', 0})
+		body := append([]byte{byte(L >> 8), byte(L)}, topic...)
+		if extra == 2 {
+			body = append(body, 0x12, 0x34)
+		}
+		body = append(body, 0) // no properties
+		body = append(body, bytes.Repeat([]byte{'p'}, P)...)
+		frame := append(ref.AppendVarint([]byte{first}, uint32(len(body))), body...)
+		if v := check(first, frame, false, fmt.Sprintf("PUBLISH whose topic of %d bytes begins so that <topic length, first character> read as a fixed header for the rest of the body", L)); v != nil {
+			return v
+		}
+	}
+	return nil
+}
+
 func runC16(c *sim.Ctx) *sim.Violation {
+	if v := c16Nested(c); v != nil {
+		return v
+	}
 	if c.Run%100 == 7 {
 		if v := c16Huge(c); v != nil {
 			return v
